@@ -5,6 +5,7 @@ package main
 // secrets only); every signing is recorded so that signature bytes can be mapped back to who signed what.
 
 import (
+	"sync/atomic"
 	"bytes"
 	"context"
 	"crypto/sha256"
@@ -133,10 +134,16 @@ func hashToken(id uint64) primitives.BlockHash {
 type membership struct {
 	me        primitives.MemberId
 	committee func(h primitives.BlockHeight) []interfaces.CommitteeMember
+	failFrom  uint64 // from this height on (when > 0) the ordered committee cannot be had: the service behind it is down
+	calls     int64
 }
 
 func (m *membership) MyMemberId() primitives.MemberId { return m.me }
 func (m *membership) RequestOrderedCommittee(ctx context.Context, h primitives.BlockHeight, seed uint64, prevRef primitives.TimestampSeconds) ([]interfaces.CommitteeMember, error) {
+	atomic.AddInt64(&m.calls, 1)
+	if f := atomic.LoadUint64(&m.failFrom); f > 0 && uint64(h) >= f {
+		return nil, errors.New("membership: committee service unavailable")
+	}
 	return m.committee(h), nil
 }
 func (m *membership) RequestCommitteeForBlockProof(ctx context.Context, h primitives.BlockHeight, prevRef primitives.TimestampSeconds) ([]interfaces.CommitteeMember, error) {
